@@ -155,6 +155,11 @@ def truth(v):
         return len(v.keys) > 0
     if isinstance(v, (Obj, NameRef, BoundMethod)):
         return True
+    if isinstance(v, Opaque) and CFG_MODE[0]:
+        b = getattr(v, "_truth", None)
+        if b is None:
+            b = v._truth = fresh_bool("cond_" + v.tag)
+        return b
     raise Unsupported(f"truth value of {v!r}")
 
 
@@ -442,6 +447,7 @@ def where_of(mask):
     return w
 
 
+CFG_MODE = [False]   # effect / exceptional-path analysis: unknown calls are opaque events, opaque conditions fork both ways
 BOUND = [None]  # bounded-refutation mode: quantifier ranges are expanded over 0..B
 
 
@@ -979,6 +985,13 @@ class Executor:
                 return Arr([v.shape[1], v.shape[0]], lambda i, j: v.at(j, i), v.dtype)
         if isinstance(v, SliceV) and attr in ("start", "stop", "step"):
             return {"start": v.lo, "stop": v.hi, "step": v.step}[attr]
+        if CFG_MODE[0] and isinstance(v, Opaque):
+            cache = v.__dict__.setdefault("_attrs", {})
+            if attr not in cache:
+                o = Opaque(f"{v.tag}.{attr}")
+                o.attr_of = (v, attr)
+                cache[attr] = o
+            return cache[attr]
         return BoundMethod(v, attr, node.value if node is not None else None)
 
     def ev_ListComp(self, node, path):
@@ -1130,6 +1143,10 @@ class Executor:
                 p2 = path.child()
                 p2.env = dict(self.old_env)
                 return self.ev(node.args[0], p2)
+            if nm == "final" and self.spec_mode and getattr(self, "final_env", None) is not None:
+                p2 = path.child()
+                p2.env = dict(self.final_env)
+                return self.ev(node.args[0], p2)
             if nm == "head" and self.spec_mode and getattr(self, "head_env", None) is not None:
                 p2 = path.child()
                 p2.env = dict(self.head_env)
@@ -1195,6 +1212,12 @@ class Executor:
             if key in ctx.lib:
                 ctx.trusted_used.add(key)
                 return ctx.lib[key](self, path, [recv] + args, kwargs, node, fn)
+            if CFG_MODE[0]:
+                recv_name = getattr(recv, "tag", None) or getattr(recv, "cls", None) or type(recv).__name__
+                ev_name = f"{recv_name}.{fn.name}"
+                r = self.opaque_call(ev_name, args, kwargs, path, node)
+                path.ghost["events"][-1]["recv"] = recv
+                return r
             raise Unsupported(f"method {key} (line {node.lineno})")
         if isinstance(fn, NameRef):
             name = fn.dotted
@@ -1206,8 +1229,23 @@ class Executor:
             if name in ctx.lib:
                 ctx.trusted_used.add(name)
                 return ctx.lib[name](self, path, args, kwargs, node, fn)
+            if q in ctx.lib:
+                ctx.trusted_used.add(q)
+                return ctx.lib[q](self, path, args, kwargs, node, fn)
+            if CFG_MODE[0]:
+                return self.opaque_call(name, args, kwargs, path, node)
             raise Unsupported(f"call to {name} has neither a contract nor a library contract (line {node.lineno})")
+        if CFG_MODE[0] and isinstance(fn, Opaque):
+            return self.opaque_call(fn.tag, args, kwargs, path, node)
         raise Unsupported(f"call of {fn!r}")
+
+    def opaque_call(self, name, args, kwargs, path, node):
+        """effect analysis: a call that is not modelled is an *event* (name, arguments, line) with an opaque result"""
+        ev = {"kind": "call", "name": name, "args": list(args), "kwargs": dict(kwargs), "line": getattr(node, "lineno", None)}
+        path.ghost.setdefault("events", []).append(ev)
+        r = Opaque(name.split(".")[-1] + "_result")
+        r.from_call = ev
+        return r
 
     def call_inline(self, qual, args, kwargs, path, node):
         """small repository helpers listed in the contract module's INLINE set are executed on their real source at
@@ -1344,6 +1382,10 @@ class Executor:
             raise Unsupported(f"unpacking {value!r}")
         if isinstance(target, ast.Attribute):
             base = self.ev(target.value, path)
+            if CFG_MODE[0] and isinstance(base, Opaque):
+                path.ghost.setdefault("events", []).append({"kind": "setattr", "name": f"{base.tag}.{target.attr} = ...", "recv": base,
+                                                            "line": target.lineno, "args": [value], "kwargs": {}})
+                return
             if not isinstance(base, Obj):
                 raise Unsupported(f"attribute store on {base!r}")
             eff = path.ghost.setdefault("attr_stores", [])
@@ -1373,6 +1415,10 @@ class Executor:
             old = base
             iz = to_z3(idx)
             return SymSeq(old.length, lambda k, old=old, iz=iz, value=value: merge_ite(to_z3(k) == iz, value, old.elem(k)), old.kind)
+        if CFG_MODE[0] and isinstance(base, Opaque):
+            path.ghost.setdefault("events", []).append({"kind": "setitem", "name": f"{base.tag}[...] = ...", "recv": base, "line": getattr(node, "lineno", None),
+                                                        "args": [idx, value], "kwargs": {}})
+            return base
         if isinstance(base, Arr):
             r = arr_store(base, idx, value)
             path.assume(*[f for f in getattr(r, "facts", []) if f is not True and not any(f is g for g in path.pc)])
@@ -1395,6 +1441,20 @@ class Executor:
         m = getattr(self, "st_" + type(s).__name__, None)
         if m is None:
             raise Unsupported(f"statement {type(s).__name__} at line {s.lineno}")
+        if getattr(self.ctx, "calls_may_raise", False) and isinstance(s, (ast.Expr, ast.Assign, ast.AugAssign, ast.Return)) \
+                and any(isinstance(n, ast.Call) for n in ast.walk(s)):
+            # S6 (exceptional contracts): every call is a potential raise point.  The statement either completes, or one of
+            # its calls raises before the statement's own effect (assignment) takes place.
+            outs = m(s, path.fork())
+            failing = path.fork()
+            n_ev = len(path.ghost.get("events", []))
+            # the calls of the statement may have been (partly) performed before the failing one: keep them as "attempted" events
+            attempted = [dict(e, attempted=True) for q in outs[:1] for e in q.ghost.get("events", [])[n_ev:]]
+            failing.ghost.setdefault("events", []).extend(attempted)
+            failing.status = "raise"
+            failing.exc = Exc("<raised by a call at line %d>" % s.lineno, s.lineno)
+            failing.ghost.setdefault("injected_failures", []).append(s.lineno)
+            return outs + [failing]
         return m(s, path)
 
     def st_Pass(self, s, path):
@@ -1483,6 +1543,17 @@ class Executor:
         raise Unsupported(f"mutating method {meth} on {recv!r} (line {s.lineno})")
 
     def st_Assign(self, s, path):
+        if (isinstance(s.value, ast.Call) and isinstance(s.value.func, ast.Attribute) and s.value.func.attr == "pop"
+                and len(s.value.args) == 1 and not s.value.keywords):
+            recv = self.ev(s.value.func.value, path)
+            i = self.ev(s.value.args[0], path)
+            if isinstance(recv, PyList) and recv.tail is None and isinstance(i, int):
+                items = list(recv.items)
+                v = items.pop(i)
+                self.assign(s.value.func.value, PyList(items, None, recv.is_tuple), path)
+                for t in s.targets:
+                    self.assign(t, v, path)
+                return [path]
         v = self.ev(s.value, path)
         for t in s.targets:
             self.assign(t, v, path)
@@ -1532,6 +1603,12 @@ class Executor:
         return [path]
 
     def st_Delete(self, s, path):
+        if CFG_MODE[0]:
+            for t in s.targets:
+                base = self.ev(t.value, path) if isinstance(t, ast.Subscript) else None
+                path.ghost.setdefault("events", []).append({"kind": "del", "name": "del " + ast.unparse(t), "recv": base, "line": s.lineno,
+                                                            "args": [], "kwargs": {}})
+            return [path]
         raise Unsupported("del")
 
     def st_Assert(self, s, path):
